@@ -156,6 +156,32 @@ class InterpBase(object):
                                 "key_expr": t.slice,
                                 "func": meth,
                             }
+        # id attribute of each registry's value class (the slot the key goes to)
+        self.id_attrs = set()
+        for key, r in self.registries.items():
+            r["id_attr"] = None
+            init = repo.method(r["value_cls"], "__init__")
+            ke = r["key_expr"]
+            if init is None or not isinstance(ke, ast.Name):
+                continue
+            call = r["construct"]
+            pname = None
+            for i, a in enumerate(call.args):
+                if isinstance(a, ast.Name) and a.id == ke.id and i + 1 < len(init.params):
+                    pname = init.params[i + 1]
+            for kw in call.keywords:
+                if isinstance(kw.value, ast.Name) and kw.value.id == ke.id:
+                    pname = kw.arg
+            if pname is None:
+                continue
+            for n in ast.walk(init.node):
+                if isinstance(n, ast.Assign) and len(n.targets) == 1 and \
+                        isinstance(n.targets[0], ast.Attribute) and \
+                        isinstance(n.value, ast.Name) and n.value.id == pname:
+                    r["id_attr"] = n.targets[0].attr
+                    self.id_attrs.add((r["value_cls"], n.targets[0].attr))
+        for c in CFG_CLASSES:
+            self.id_attrs.add((c, "_app_id"))
         # listener closures: non-test call sites of add_listener
         self.listener_closures = []
         for f in repo.all_functions():
